@@ -13,6 +13,9 @@ def _one(args):
     if cfg == 'custom':
         config['errors_map'] = S.custom_errors()
         app = S.make_app(config=config)
+    elif cfg == 'domain':
+        config.update(S.domain_config())
+        app = S.make_app(config=config, private_errors=True)
     else:
         app = S.make_app(config=config, private_errors=True)
     r = call_app(app, S.make_env(kind, n))
